@@ -342,7 +342,7 @@ func (e *env) startSession() bool {
 func runHistory(k int, h hist) {
 	id := fmt.Sprintf("c04-%d", k)
 	run.CaseStart(id + " " + h.String())
-	defer run.CaseEnd(id + " " + h.String())
+	defer run.CaseEndDeferred(id + " " + h.String())
 	r := run.Rand("c04env", k)
 	e := &env{h: h, k: k, wantRun: 0, log: &evlog.Log{}, stopAcc: make(chan struct{})}
 	e.dir = filepath.Join(run.Work, fmt.Sprintf("h%d", k))
